@@ -17,7 +17,7 @@ def gen_stallwatch(r, tier):
     ncases = 60 if tier == "quick" else 1200
     ident = streams.int_map_tok({i: i for i in range(256)})
     for _ in range(ncases):
-        kind = r.pick(["hwmon", "hwmon", "file"])
+        kind = streams.pick_world_kind(r, base=("hwmon", "hwmon", "file"))
         n = r.pick([1, 2, 3, 5, 10, 10, 20, 50]) if tier == "quick" else r.range(1, 50)
         lo, hi = streams.gen_limits(r)
         if r.chance(0.5):
@@ -44,6 +44,9 @@ def gen_stallwatch(r, tier):
         # the fan stalls: the harness plays the device (rpm 0 unless the register exceeds the threshold)
         ops.append("w.dev rpm=0")
         budget = bound_polls(kind, n) + 2 * (hi - lo) + 20 + 2 * (hi - lo)
+        if kind == "cmd":
+            # every poll / cycle is a few real process executions; one poll notices, at most two cycles per raise
+            budget = bound_polls(kind, n) + 2 * (hi - lo) + 30
         capped = budget > 1400
         budget = min(budget, 1400)
         if not capped:
@@ -58,8 +61,8 @@ def gen_stallwatch(r, tier):
 class C10(Prop):
     id = "C10"
     lean_modules = ["Fan2go.Props.C10"]
-    fact_modules = ["Fan2go.Props.Facts"]
-    rule = ("stallwatch: neverStop hwmon/file fans, window sizes 1..50, prior RPM averages {0,1,300,1000,5000,random<=32768}, "
+    fact_modules = ["Fan2go.Props.Facts", "Fan2go.Props.Trans"]
+    rule = ("stallwatch: neverStop hwmon/file/cmd fans (cmd = real scripts and processes), window sizes 1..50, prior RPM averages {0,1,300,1000,5000,random<=32768}, "
             "limits random, constant curve, direct loop; the fan reports 0 RPM from some point on and never recovers; one RPM "
             "poll per control cycle. non-trivial = distinct (kind, window, prior-average class, limits class)")
     assumptions = ["prior RPM average <= 2^15 (32768 RPM) for the hwmon bound B(n) = 16n polls",
